@@ -1155,6 +1155,56 @@ func TestVerifC11(t *testing.T) {
 	if b, err := stdx509.MarshalECPrivateKey(ecK); err == nil {
 		corpus.ec = append(corpus.ec, b)
 	}
+	// SEC1 keys whose privateKey OCTET STRING is shorter than / as long as / longer than the order size: 0–4 leading zero octets in
+	// front of the scalar (tolerated on purpose, as crypto/x509 does), a short scalar, and an over-long one that does not start with
+	// zero; each also inside PKCS#8. Oracle: whenever crypto/x509 and this package both return a key, it is the same scalar.
+	sameScalar := func(entry string, der []byte, mine func([]byte) (interface{}, error), std func([]byte) (interface{}, error)) {
+		var a, b interface{}
+		if verifkit.Guard(func() { a, _ = mine(der); b, _ = std(der) }) != "" {
+			return // reported as a panic by check() below
+		}
+		ka, okA := a.(*ecdsa.PrivateKey)
+		kb, okB := b.(*ecdsa.PrivateKey)
+		if okA && okB && ka != nil && kb != nil {
+			out.Count("mode:ec-scalar-compared")
+			if ka.D.Cmp(kb.D) != 0 || ka.X.Cmp(kb.X) != 0 {
+				out.Fail("ec-scalar "+entry+" "+verifkit.Hex(der), "key differs from crypto/x509's: D="+ka.D.Text(16)+" vs "+kb.D.Text(16))
+			}
+		}
+	}
+	for ci, curve := range []elliptic.Curve{elliptic.P256(), elliptic.P224(), elliptic.P384(), elliptic.P521()} {
+		k := c11ECKey(curve, r.Bytes(70))
+		oid, _ := OIDFromNamedCurve(curve)
+		size := (curve.Params().N.BitLen() + 7) / 8
+		scalar := k.D.FillBytes(make([]byte, size))
+		var variants [][]byte
+		for pad := 0; pad <= 4; pad++ {
+			variants = append(variants, append(make([]byte, pad), scalar...))
+		}
+		variants = append(variants, k.D.Bytes()[len(k.D.Bytes())/2:], append([]byte{1}, scalar...), append([]byte{0, 1}, scalar...), []byte{}, make([]byte, size+2))
+		for vi, priv := range variants {
+			if ci > 0 && vi > 5 && !verifkit.Thorough() {
+				continue
+			}
+			sec1, err := asn1.Marshal(ecPrivateKey{Version: 1, PrivateKey: priv, NamedCurveOID: oid})
+			if err != nil {
+				continue
+			}
+			corpus.ec = append(corpus.ec, sec1)
+			sameScalar("ParseECPrivateKey", sec1, func(b []byte) (interface{}, error) { return ParseECPrivateKey(b) }, func(b []byte) (interface{}, error) { return stdx509.ParseECPrivateKey(b) })
+			inner, err := asn1.Marshal(ecPrivateKey{Version: 1, PrivateKey: priv})
+			if err != nil {
+				continue
+			}
+			oidDER, _ := asn1.Marshal(oid)
+			p8, err := asn1.Marshal(pkcs8{Version: 0, Algo: pkix.AlgorithmIdentifier{Algorithm: OIDPublicKeyECDSA, Parameters: asn1.RawValue{FullBytes: oidDER}}, PrivateKey: inner})
+			if err != nil {
+				continue
+			}
+			corpus.pkcs8 = append(corpus.pkcs8, p8)
+			sameScalar("ParsePKCS8PrivateKey", p8, func(b []byte) (interface{}, error) { return ParsePKCS8PrivateKey(b) }, func(b []byte) (interface{}, error) { return stdx509.ParsePKCS8PrivateKey(b) })
+		}
+	}
 	for _, k := range []interface{}{ecK, edSigner, rsaSigner} {
 		if k == nil || reflect.ValueOf(k).IsNil() {
 			continue
